@@ -1160,6 +1160,23 @@ impl Sut for GList<u64> {
         let ix = a.below(self.len() as u64 + 1) as usize;
         t.call("glist.get", &[sx(self), ix.to_string(), sx(&self.get(ix))]);
         t.call("glist.len", &[sx(self), self.len().to_string()]);
+        t.call("glist.is_empty", &[sx(self), self.is_empty().to_string()]);
+        t.call("glist.first", &[sx(self), sx(&self.first())]);
+        t.call("glist.last", &[sx(self), sx(&self.last())]);
+        let it: Vec<Identifier<u64>> = self.iter().cloned().collect();
+        t.call("glist.iter", &[sx(self), sx(&it)]);
+        if let Some(id) = self.get(ix) {
+            // value() panics on an empty identifier: logged as (none)
+            let v = guard(|| *id.value());
+            let iv = guard(|| id.clone().into_value());
+            t.call("ident.value", &[sx(id), sx(&v)]);
+            t.call("ident.value", &[sx(id), sx(&iv)]);
+        }
+        let into = guard(|| self.clone().read_into::<Vec<u64>>());
+        t.call("glist.read_into", &[sx(self), match into {
+            Some(v) => sx(&v),
+            None => "panic".into(),
+        }]);
     }
     fn extra(&self, _o: &Self, a: &mut Args, t: &mut Out) {
         ident_probes(a, t);
@@ -1349,6 +1366,25 @@ impl Sut for List<u64, A> {
         t.call("list.len", &[sx(self), self.len().to_string()]);
         let ix = a.below(self.len() as u64 + 1) as usize;
         t.call("list.position", &[sx(self), ix.to_string(), sx(&self.position(ix))]);
+        // the remaining read entry points
+        t.call("list.is_empty", &[sx(self), self.is_empty().to_string()]);
+        let it: Vec<u64> = self.iter().cloned().collect();
+        t.call("list.iter", &[sx(self), sx(&it)]);
+        let ents: Vec<(Identifier<OrdDot<A>>, u64)> = self.iter_entries().map(|(i, v)| (i.clone(), *v)).collect();
+        t.call("list.iter_entries", &[sx(self), sx(&ents)]);
+        t.call("list.first", &[sx(self), sx(&self.first())]);
+        t.call("list.last", &[sx(self), sx(&self.last())]);
+        t.call("list.first_entry", &[sx(self), sx(&self.first_entry())]);
+        t.call("list.last_entry", &[sx(self), sx(&self.last_entry())]);
+        // an identifier that is present (when there is one) or an arbitrary one
+        let id = match ents.get(ix) {
+            Some((i, _)) if a.below(4) != 0 => i.clone(),
+            _ => rand_ident_od(a),
+        };
+        t.call("list.position_entry", &[sx(self), sx(&id), sx(&self.position_entry(&id))]);
+        t.call("list.get", &[sx(self), sx(&id), sx(&self.get(&id))]);
+        let into: Vec<u64> = self.clone().read_into();
+        t.call("list.read_into", &[sx(self), sx(&into)]);
     }
     fn extra(&self, _o: &Self, _a: &mut Args, t: &mut Out) {
         serde_rt("list", self, t);
